@@ -240,5 +240,25 @@ Proof.
   split; [reflexivity|]. split; vm_compute; reflexivity.
 Qed.
 
+(** * Before the repair ([setup_channel] now refuses a funding output index above 65535) the
+      channel parameters handed to LDK carried [vout as u16]: the transaction that was signed
+      spent another outpoint than the channel's.  With [canon_tx] as the specification, the old
+      behaviour is "sign [canon_tx] of the setup with the truncated index", and that is a
+      different transaction (replayed on the implementation by the harness: vout = 65536). *)
+Definition truncate_vout (s : setup) : setup :=
+  mkSetup (s_ctype s) (s_outbound s) (s_value s) (s_txid s) (s_vout s mod 65536) (s_delay s)
+          (s_holder_funding s) (s_cp_funding s) (s_holder_payment s).
+Example C04_old_vout_truncation_refuted :
+  exists s k c,
+    canon_tx Sha256.sha256 ripemd160 (truncate_vout s) k c <> canon_tx Sha256.sha256 ripemd160 s k c
+    /\ commit_sighash Sha256.sha256 (truncate_vout s) (canon_tx Sha256.sha256 ripemd160 (truncate_vout s) k c)
+       <> commit_sighash Sha256.sha256 s (canon_tx Sha256.sha256 ripemd160 s k c).
+Proof.
+  exists (mkSetup (s_ctype ex_setup) true (s_value ex_setup) (s_txid ex_setup) 65536 (s_delay ex_setup)
+                  (s_holder_funding ex_setup) (s_cp_funding ex_setup) (s_holder_payment ex_setup)),
+         ex_keys, ex_content.
+  split; vm_compute; discriminate.
+Qed.
+
 Check C04_phase1_canonical.
 Check C04_entry_points_agree.
